@@ -76,6 +76,8 @@ def generate(seed, tier, opts):
     return dict(
         seed=int(seed),
         wseed=wseed,
+        # environment (not a fault): the temp area lives on another file system
+        exdev=d.chance("exdev", 0.3),
         workload=workload,
         physics="real" if real else "stub",
         theory=th,
@@ -203,7 +205,7 @@ def run_session(case, root, fault=None, ns="run", count_lines=False):
             raise HarnessError(f"unknown fault type {t}")
     d = Decider(case["wseed"], "fs:" + ns)
     tr = seams.Trace()
-    sm = seams.Seams(root, d, trace=tr, plan=seams.FaultPlan(fs_faults), trace_reads=True, cpu_count=4)
+    sm = seams.Seams(root, d, trace=tr, plan=seams.FaultPlan(fs_faults), trace_reads=True, cpu_count=4, exdev_between=("tmp", "out") if case.get("exdev") else None)
     raised = None
     li = None
     with PhysicsPatch(case, fail_at, fail_exc) as phys:
@@ -228,6 +230,7 @@ def run_session(case, root, fault=None, ns="run", count_lines=False):
         phys_calls=len(phys.calls),
         lines=li.count if li is not None else None,
         where=li.where if li is not None else None,
+        exdev_hits=sm.exdev_hits,
     )
 
 
@@ -454,7 +457,7 @@ def execute(case):
     import hashlib
 
     viol = []
-    stats = dict(faulted_runs=0, fired={}, site_classes={}, absorbed=0, unfired=0, retries=0, leaks_tmp=0, leaks_sibling=0, pair_runs=0, committed_interrupts=0, sim_events=0)
+    stats = dict(faulted_runs=0, fired={}, site_classes={}, absorbed=0, unfired=0, retries=0, leaks_tmp=0, leaks_sibling=0, pair_runs=0, committed_interrupts=0, sim_events=0, exdev_env=1 if case.get("exdev") else 0, exdev_hits=0)
     samples = []
     sigs = set()
     with Scratch("crash") as root:
@@ -484,6 +487,7 @@ def execute(case):
             return dict(violations=viol, stats=stats, digest=ref["trace"].digest())
         ref_events = ref["trace"].events
         stats["sim_events"] += len(ref_events)
+        stats["exdev_hits"] += ref.get("exdev_hits", 0)
         faults = enumerate_faults(case, ref, d)
         digest_parts = [ref["trace"].digest()]
         for fault in faults:
@@ -622,7 +626,7 @@ def summarize(results, tier):
     from ..batch import merge_counts
 
     fired, sites, sigs = {}, {}, set()
-    tot = dict(faulted_runs=0, absorbed=0, unfired=0, retries=0, leaks_tmp=0, leaks_sibling=0, pair_runs=0, committed_interrupts=0, sim_events=0)
+    tot = dict(faulted_runs=0, absorbed=0, unfired=0, retries=0, leaks_tmp=0, leaks_sibling=0, pair_runs=0, committed_interrupts=0, sim_events=0, exdev_env=0, exdev_hits=0)
     samples = []
     wl = {}
     phys = {}
@@ -664,7 +668,7 @@ def summarize(results, tier):
         clean_reruns=tot["retries"],
         pair_runs=tot["pair_runs"],
         committed_interrupts=tot["committed_interrupts"],
-        probes=dict(runs_leaking_temp_dirs=tot["leaks_tmp"], runs_leaking_target_siblings=tot["leaks_sibling"]),
+        probes=dict(runs_leaking_temp_dirs=tot["leaks_tmp"], runs_leaking_target_siblings=tot["leaks_sibling"], workloads_with_cross_device_temp_area=tot["exdev_env"], cross_device_renames_refused=tot["exdev_hits"]),
         sim_events=tot["sim_events"],
         reference_trace_events=events,
         components=dict(
